@@ -506,20 +506,17 @@ class PageLayout(object):
                 else:
                     crop_engine = EngineLineCropper(poly=2)
                     line_coords = crop_engine.get_crop_inputs(line.baseline, line.heights, 16)
-                    space_idxs = [pos for pos, char in enumerate(line.transcription) if char == ' ']
-
-                    words = []
-                    space_idxs = [-1] + space_idxs + [len(aligned_letters)]
-                    for i in range(len(space_idxs[1:])):
-                        if space_idxs[i] != space_idxs[i+1]-1:
-                            words.append([aligned_letters[space_idxs[i]+1], aligned_letters[space_idxs[i+1]-1]])
-                    splitted_transcription = line.transcription.split()
+                    # one segmentation for both the word spans and the word contents (the same words as str.split())
+                    word_spans = [(match.start(), match.end()) for match in re.finditer(r'\S+', line.transcription)]
+                    words = [[aligned_letters[start], aligned_letters[end - 1]] for start, end in word_spans]
+                    splitted_transcription = [line.transcription[start:end] for start, end in word_spans]
                     lm_const = line_coords.shape[1] / logits.shape[0]
                     letter_counter = 0
                     confidences = get_line_confidence(line, np.array(label), aligned_letters, logprobs)
                     #if line.transcription_confidence is None:
                     line.transcription_confidence = np.quantile(confidences, .50)
                     for w, word in enumerate(words):
+                        letter_counter = word_spans[w][0]
                         extension = 2
                         while line_coords.size > 0 and extension < 40:
                             all_x = line_coords[:, max(0, int((words[w][0]-extension) * lm_const)):int((words[w][1]+extension) * lm_const), 0]
@@ -562,7 +559,6 @@ class PageLayout(object):
                             space.set("WIDTH", str(4))
                             space.set("VPOS", str(int(np.min(all_y))))
                             space.set("HPOS", str(int(np.max(all_x))))
-                        letter_counter += len(splitted_transcription[w])+1
                 if line.transcription_confidence is not None:
                     if line.transcription_confidence < min_line_confidence:
                         text_block.remove(text_line)
